@@ -18,7 +18,7 @@ import WallGo.thermodynamics as TH
 
 from symx import axioms, core, diff
 from symx.core import AND, Cond, Sym, close, eq, gt, lt
-from symx.harness import HarnessDef
+from symx.harness import HarnessDef, bare
 
 EXPLANATION = __doc__
 BOUNDS = {"paths": "3 per phase and method (T<TMin, inside, T>TMax); both phases",
@@ -71,7 +71,7 @@ def conc_pow(b, e):
 
 def build(h):
     h.patch(TH, float=__import__("symx.npx", fromlist=["x"]).symfloat, pow=core.sym_pow)
-    th = TH.Thermodynamics.__new__(TH.Thermodynamics)
+    th = bare(TH.Thermodynamics)
     fns = {}
     for k in ("H", "L"):
         d = _default_eos(k)
